@@ -3,15 +3,16 @@ import numpy as np
 
 from props import backends_common as bc
 from props import gauss_common as gc
+from props import bosonic_model as bm
 from props import fock_axes as fa
 from vlib import sfgen
 
 PROP = "C05"
 LEVEL = "proof"
-COQ_DIRS = ["C05", "FockAxes"]
-COQ_TARGETS = ["Gen/GaussCirc.vo", "C05/GaussSpectators.vo", "Base/GaussAlloc.vo", "C05/GaussAllocProofs.vo"] + list(fa.COQ_TARGETS)
+COQ_DIRS = ["C05", "FockAxes", "Bosonic"]
+COQ_TARGETS = ["Gen/GaussCirc.vo", "C05/GaussSpectators.vo", "Base/GaussAlloc.vo", "C05/GaussAllocProofs.vo"] + list(fa.COQ_TARGETS) + list(bm.COQ_TARGETS)
 PROPERTIES_FILE = "Properties/C05.v"
-EXTRA_PROPERTIES_FILES = [fa.PROPERTIES_FILE]
+EXTRA_PROPERTIES_FILES = [fa.PROPERTIES_FILE, bm.PROPERTIES_FILE]
 ALLOWED_AXIOMS = set()
 TRANSLATORS = [gc.translate_gausscirc]
 RULE = ("(a) generated-function correspondence: random (method, register size 1-5, target position, parameters incl. 0 and "
@@ -36,6 +37,7 @@ FOCK_NAMES = [x for x in GAUSS_NAMES if x not in ("ThermalLossChannel", "Thermal
 
 
 def correspondence(ctx):
+    bm.correspondence_bosonic(ctx, predicates=('spectator',))
     fa.correspondence_fock_axes(ctx)
     bad = gc.correspondence_alloc(ctx, ctx.budget(60, 600), tag="c05alloc")
     if bad:
@@ -135,6 +137,8 @@ def search(ctx):
 
 def replay(ctx, data):
     d = data["data"]
+    if str(d.get("check", "")).startswith("bosonic"):
+        return bm.replay_bosonic(ctx, data)
     if d.get("check") == "fock-axes":
         return fa.replay_fock_axes(ctx, data)
     if d.get("check") == "spect":
